@@ -3,7 +3,7 @@
 P=$1; shift
 for s in "$@"; do
   git -C /repo apply /verif/seeded/$s/patch.diff || { echo "$s: patch failed"; continue; }
-  out=$(cd /verif && timeout 1800 ./check $P quick 2>&1 | tail -4)
+  out=$(cd /verif && VERIF_EVIDENCE_DIR=/tmp/verif-seed-evidence timeout 1800 ./check $P quick 2>&1 | tail -4)
   git -C /repo checkout -- .
   echo "== $s vs $P: $(echo "$out" | grep -c VIOLATION) VIOLATION lines; $(echo "$out" | tail -1)"
 done
